@@ -154,6 +154,7 @@ class SuiteResult(object):
         self.stats = Stats()
         self.disagreements = []   # model vs implementation (the tie)
         self.failures = []        # the PROPERTY fails on the implementation: dicts {what, replay, ...}
+        self.fail_counts = {}
         self.exhaustive = False
         self.notes = []
 
@@ -163,7 +164,9 @@ class SuiteResult(object):
                                        'impl': impl, 'model': model})
 
     def fail(self, prop, what, replay, key=None):
-        if len(self.failures) < 200:
+        k = (prop, key or what)
+        self.fail_counts[k] = self.fail_counts.get(k, 0) + 1
+        if self.fail_counts[k] <= 5:       # keep a few witnesses per class; classes never crowd each other out
             self.failures.append({'property': prop, 'what': what, 'replay': replay, 'key': key or what})
 
 
